@@ -46,8 +46,8 @@ theorem geneRegion_spec (as : List Aln) : ∀ r : Iv,
     · constructor <;> omega
     · exact h3 a ha
 
-/-- the genes an alignment overlaps, among a list of genes -/
-def view (a : Aln) (G : List GeneRec) : List GeneRec := G.filter (fun g => overlaps a.iv g.span)
+/-- the genes an alignment overlaps (its 1-based interval against the 1-based gene records), among a list of genes -/
+def view (a : Aln) (G : List GeneRec) : List GeneRec := G.filter (fun g => overlaps (iv1 a) g.span)
 
 /-- a region that contains the alignment loads every gene the alignment overlaps -/
 theorem view_loadGenes (genes : List GeneRec) (R : Iv) (a : Aln) (h1 : R.1 ≤ a.start) (h2 : a.stop - 1 ≤ R.2) :
@@ -56,12 +56,12 @@ theorem view_loadGenes (genes : List GeneRec) (R : Iv) (a : Aln) (h1 : R.1 ≤ a
   rw [List.filter_filter]
   apply List.filter_congr
   intro g _
-  cases hov : overlaps a.iv g.span with
+  cases hov : overlaps (iv1 a) g.span with
   | false => simp
   | true =>
-    have := (ov_iff a.iv g.span).mp hov
-    simp only [Aln.iv] at this
-    have : overlaps R g.span = true := (ov_iff R g.span).mpr ⟨by omega, by omega⟩
+    have := (ov_iff (iv1 a) g.span).mp hov
+    simp only [iv1] at this
+    have : overlaps (R.1 + 1, R.2 + 1) g.span = true := (ov_iff _ g.span).mpr ⟨by simp only; omega, by simp only; omega⟩
     simp [this]
 
 /-- repaired loading: in every sub-region the alignment is handed to, its gene view is its view of the whole annotation -/
